@@ -242,7 +242,11 @@ let handle (c : Sexp.t) : string =
       | _ -> nominal
     end
   in
-  let skip_model = engine <> "bmc" && point < 0 in
+  (* context-level faults (FaultyCtx in the worker: a check answers Ok(Unknown), a call returns Err) are below the
+     byte-level model and above nothing we model of PDR: oracle only *)
+  let is_ctx = String.length fault >= 4 && String.sub fault 0 4 = "ctx-" in
+  let family = if engine = "bmc" then "bmc" else "pdr" in
+  let skip_model = (engine <> "bmc" && point < 0) || is_ctx in
   let o_fix = if skip_model then impl else predict Fix in
   let o_cur = if skip_model then impl else predict Cur in
 
@@ -256,7 +260,26 @@ let handle (c : Sexp.t) : string =
   in
   let intact_kinds = ["split"; "pad"; "replyexit0"; "replyexit1"; "none"] in
   let verdict_key = "verdict-despite-fault:" ^ fault_kind in
+  let ctx_error_text = "injected: solver context error" in
+  let ctx_oracle () : (unit, string * string) result =
+    match impl.cls with
+    | "hang" -> Error ("hang:" ^ fault, "the run does not return")
+    | "panic" -> Error ("panic-after-" ^ fault ^ "@" ^ impl.sub, "the run panics after a " ^ fault ^ " fault")
+    | "err" ->
+        if fault = "ctx-error" && not (impl.sub = "from-solver" && impl.text = ctx_error_text)
+        then Error ("ctx-error-not-propagated", "a solver call returned Err(FromSolver \"" ^ ctx_error_text ^ "\"), the run returns a different error")
+        else Ok ()
+    | "verdict" ->
+        if fault = "ctx-error" then Error ("verdict-despite-fault:ctx-error", "a verdict although a solver call returned Err")
+        else if impl.sub = "unknown" then Ok ()
+        else if nominal.cls = "verdict" && nominal.sub = impl.sub then
+          Ok () (* the verdict of the fault-free run: an `unknown` that was treated conservatively does not carry it *)
+        else Error ("wrong-verdict-after-unknown:" ^ family,
+                    Printf.sprintf "one check was answered Ok(Unknown); the fault-free run says [%s], this run says [%s]" (show nominal) (show impl))
+    | _ -> Error ("crash", "the worker died without an outcome")
+  in
   let oracle : (unit, string * string) result =
+    if is_ctx then ctx_oracle () else
     match impl.cls with
     | "hang" ->
         let nb = naive_balance emitted and ab = aware_balance emitted in
@@ -294,7 +317,10 @@ let handle (c : Sexp.t) : string =
   in
   match oracle with
   | Error (key, what) ->
-      let by_model = if same o_cur impl then " (exactly what the model of the current code predicts)" else " (NOT predicted by the model of the current code)" in
+      let by_model =
+        if is_ctx then " (context-level fault: observed on the real bmc/pdr, no model prediction)"
+        else if same o_cur impl then " (exactly what the model of the current code predicts)"
+        else " (NOT predicted by the model of the current code)" in
       Registry.result ~id ~status:"fail" ~key ~detail:(what ^ by_model ^ "; " ^ detail) ()
   | Ok () ->
       let emitted_nb = naive_balance emitted and emitted_ab = aware_balance emitted in
